@@ -147,6 +147,7 @@ for tn,tname,ml in [(1,"typename",4),(2,"separator",5),(3,"unknown-number",5),(4
     c05.append(job(f"line-{tname}","auparse","VH_LineTotal",["C05/"],{"maxlen":ml,"template":tn},Q,bounds=f"ParseLogLine on a full line whose {tname} part is every ASCII string of 0..{ml} symbolic bytes (type=<..> msg=audit(1.000:1): a=b)"))
 c05.append(job("header-window-3","auparse","VH_HeaderBad",["C05/"],{"mode":5,"window":3},Q,bounds="Parse/ParseLogLine on \"audit\" + 0..3 symbolic ASCII bytes + header remainder (delimiters swapped, doubled, missing)"))
 c05.append(job("header-overwrite-2","auparse","VH_HeaderBad",["C05/"],{"mode":6},Q,bounds="a well-formed line with any two header positions overwritten by symbolic ASCII bytes"))
+c05.append(job("body-avc-middle-word","auparse","VH_BodyTotal",["C05/"],{"maxlen":5,"type":10,"avc":2},Q,bounds="AVC record \"avc:  denied  <..> for  pid=1 ...\" (blank before \"for\" written out) with the part where the permission set belongs every ASCII string of 0..5 symbolic bytes"))
 c05.append(job("body-avc-middle","auparse","VH_BodyTotal",["C05/"],{"maxlen":4,"type":10,"avc":1},Q,bounds="AVC record \"avc:  denied  <..>for  pid=1 ...\" with the part where the permission set belongs every ASCII string of 0..4 symbolic bytes"))
 c05.append(job("bare-header","auparse","VH_BodyTotal",["C05/"],{"maxlen":4,"type":0,"bare":1},Q,bounds="Parse(SYSCALL, \"audit(1.000:1)\" + tail) for every ASCII tail of 0..4 symbolic bytes (no separator after the header)"))
 c05.append(job("body-anytype","auparse","VH_BodyTotal",["C05/"],{"maxlen":4,"type":-1},T,bounds="record type symbolic (16 bit), body 0..4 symbolic ASCII bytes"))
@@ -189,6 +190,11 @@ for n in (3,5):
 c04.append(job("bad-overwrite-2","auparse","VH_HeaderBad",["C04/"],{"mode":6},Q,bounds="a well-formed header \"audit(12.345:67): a=(b)\" with any two positions overwritten by symbolic ASCII bytes"))
 for tn,tname,ml in [(1,"typename",4),(2,"separator",5),(3,"unknown-number",5),(4,"type-and-separator",5),(5,"line-prefix",5)]:
     c04.append(job(f"bad-line-{tname}","auparse","VH_LineTotal",["C04/"],{"maxlen":ml,"template":tn},Q,bounds=f"ParseLogLine on a full line whose {tname} part is every ASCII string of 0..{ml} symbolic bytes: error or message, no panic"))
+for k,pl in [(1,0),(2,1),(3,0)]:
+    c04.append(job(f"history-prelude-{k}","auparse","VH_Header",["C04/"],{"typemode":0,"secdigits":2,"seqdigits":2,"bodymax":0,"prelude":k,"preludeline":pl},Q,bounds=f"a well-formed line with its own symbolic digits (2-digit seconds, {k}-digit sequence) is parsed first, then the line under test (2-digit seconds and sequence): headers that are equal, a prefix of one another, or unrelated; the earlier message is compared again at the end"))
+c04.append(job("history-prelude-wide","auparse","VH_Header",["C04/"],{"typemode":0,"secdigits":10,"seqdigits":10,"bodymax":0,"prelude":9},Q,bounds="the same with 10-digit seconds, a 9-digit sequence first and a 10-digit one second"))
+for mode,name in [(4,"truncations"),(1,"bad-byte-in-field"),(3,"sign-in-sequence")]:
+    c04.append(job("bad-"+name+"-after-good","auparse","VH_HeaderBad",["C04/"],{"mode":mode,"seqdigits":10,"prelude":1},Q,bounds="malformed header: "+name+", parsed right after the well-formed header it was derived from"))
 c04.append(job("bad-seq-11-digits","auparse","VH_HeaderBad",["C04/"],{"mode":0,"seqdigits":11},Q,bounds="sequence of 11 symbolic digits >= 2^32"))
 C["C04"]={"jobs":c04,"assumptions":PARSE_ASSUME+["expected numeric values are by construction (Horner over the same digit variables), not by parsing","time.Time.String is an uninterpreted injective rendering (the claim is about which instant reaches it)"],
    "outside":["bodies longer than 6 symbolic bytes","symbolic non-ASCII bytes in the body (concrete ones are in the hostile list)","stricter header grammars than first '(' '.' ':' ')' (the property does not define one)"]}
